@@ -73,7 +73,7 @@ class Run:
         self.seq = 0
 
     def rec(self, **kw: Any) -> None:
-        e = {"e": "", "t": tu(self.loop.time()), "i": 0, "k": "", "n": 0, "p": 0, "a": 0, "b": 0, "s": ""}
+        e = {"e": "", "t": tu(self.loop.time()), "i": 0, "k": "", "n": 0, "p": 0, "a": 0, "b": 0, "s": "", "r": 0}
         e.update(kw)
         self.ev.append(e)
 
@@ -249,9 +249,9 @@ async def _run(sc: dict, holder: dict | None = None) -> dict:
         else:
             qos = QosParams(max_retries=c["mr"], timeout=c["to"], wait_for_reply=c.get("wfr"))
         R.rec(e="Call", i=i, k=c["kind"], n=c["mr"], p=c.get("prio", 0), a=tu(min(c["to"], 20.0)),
-              b=1 if cmd.rx_header else 0, s="up" if connected["up"] else "down")
+              b=1 if cmd.rx_header else 0, s="up" if connected["up"] else "down", r=int(c.get("nr", 0)))
         try:
-            coro = proto.send_cmd(cmd, priority=Priority(c.get("prio", 0)), qos=qos)
+            coro = proto.send_cmd(cmd, priority=Priority(c.get("prio", 0)), qos=qos, num_repeats=int(c.get("nr", 0)))
             if c.get("outer") is not None:
                 pkt = await asyncio.wait_for(coro, c["outer"])
             else:
